@@ -6,7 +6,7 @@
 //! the input with the failure passed on), and Miri watches every unsafe access.
 //!
 //! usage: iso-unsafe <mode> <lo> <hi> <seed> [max_k] [pattern]
-//!   mode sort: for n in lo..=hi, 6 run patterns x 2 failure kinds x every failing comparison index
+//!   mode sort: for n in lo..=hi, 8 run patterns x 2 failure kinds x every failing comparison index
 //!   mode heap: push/pop sequences of length lo..=hi with failure at every comparison index
 #![allow(dead_code, unused_macros, clippy::all)]
 
@@ -84,7 +84,9 @@ fn pattern(p: usize, n: usize, rng: &mut Lcg) -> Vec<i64> {
             2 => (i % 7) as i64,                             // saw-tooth
             3 => (rng.next() % 3) as i64,                    // few distinct keys
             4 => (rng.next() % 1000) as i64,                 // random
-            _ => if i % 12 < 6 { i as i64 } else { -(i as i64) }, // runs up and down
+            5 => if i % 12 < 6 { i as i64 } else { -(i as i64) }, // runs up and down
+            6 => ((n - i) / 3) as i64,                       // weakly descending: ties inside a descending stretch
+            _ => if (i / 5) % 2 == 0 { (i / 2) as i64 } else { (n as i64) - (i / 2) as i64 }, // weakly ascending / descending stretches with ties
         })
         .collect()
 }
@@ -161,7 +163,7 @@ fn one_sort(keys: &[i64], fail_at: Option<(u64, u8)>, t: &mut Tally) -> u64 {
 fn sort_block(lo: usize, hi: usize, seed: u64, max_k: u64, only_pattern: Option<usize>, t: &mut Tally) {
     let mut rng = Lcg(seed.wrapping_mul(2654435761).wrapping_add(17));
     for n in lo..=hi {
-        for p in 0..6 {
+        for p in 0..8 {
             if only_pattern.map_or(false, |q| q != p) {
                 continue;
             }
